@@ -4,7 +4,7 @@ from ..models import make_interp
 from ..tmplcheck import family_results, report
 from ..values import BoolV
 
-FLOORS = {"C01.R1.frame-start": 100, "C01.R2.mnemonic-name": 100, "C01.R3.operand-unit": 50,
+FLOORS = {"C01.Q.searched-stream-is-this-operations": 2, "C01.R1.frame-start": 100, "C01.R2.mnemonic-name": 100, "C01.R3.operand-unit": 50,
           "C01.R3.operands-in-order": 100, "C01.R4.flag-loaded": 10, "C01.A2.sequence": 50, "C01.R6.one-search-over-whole-stream": 8}
 
 
@@ -99,3 +99,6 @@ def run(ctx) -> None:
     from ..streamshapes import witnesses
     if ctx.tier == "thorough" or ('seq',):
         witnesses(ctx, _mkw(ctx.p), "C01.W.canonical-witness-is-found", tags=('seq',) if ctx.tier != "thorough" or "C01" != "C07" else ())
+    # Q: the regex is searched in the stream of this operation's own listing (nothing carried over from an earlier operation)
+    from ._matchrules import stream_per_run
+    stream_per_run(ctx, "C01.Q.searched-stream-is-this-operations")
